@@ -458,6 +458,32 @@ def extra_specs() -> list[dict]:
     return out
 
 
+def hibev_specs() -> list[dict]:
+    """Hibernation on + an evaluation-based global condition, the limit swept so that the total crosses it at many different
+    points of the sleep / wake cycle (while a deme sleeps, right after it was woken, while a woken deme goes quiet again)."""
+    out = []
+    base = {"dim": 2, "box": "sym", "hibernation": True}
+    rows = [
+        ([{"engine": "SEA", "pop": 8, "gens": 1}, {"engine": "DE", "pop": 5, "gens": 1, "lsc": {"kind": "MetaepochLimit", "n": 2}}],
+         {"kind": "simple", "far": 0.05, "limit": 1}, "multi"),
+        ([{"engine": "DE", "pop": 8, "gens": 1}, {"engine": "SEA", "pop": 5, "gens": 2, "lsc": {"kind": "MetaepochLimit", "n": 3}}, {"engine": "LOCAL", "maxiter": 2}],
+         {"kind": "nbc", "gen": 1.0, "trunc": 1.0, "fil": 0.5, "limit": 2}, "funnels"),
+        ([{"engine": "SEA", "pop": 6, "gens": 2}, {"engine": "CMA", "gens": 2, "lsc": {"kind": "MetaepochLimit", "n": 2}}],
+         {"kind": "simple", "far": 0.1, "limit": 2}, "funnels"),
+    ]
+    n = 0
+    for levels, sprout, fn in rows:
+        for lim in range(70, 331, 20):
+            n += 1
+            kind = "SingularEvalLimit" if n % 3 else "WeightedEvalLimit"
+            gsc = {"kind": kind, "n": lim}
+            if kind == "WeightedEvalLimit":
+                gsc["w"] = "equal"
+            out.append(dict(base, name=f"hibev{n}", seed=2300 + n % 5, levels=[dict(l) for l in levels], sprout=dict(sprout), gsc=gsc,
+                            fn=fn, maximize=(n % 4 == 0), idlecheck=False, max_consults=1500))
+    return out
+
+
 def penalty_specs() -> list[dict]:
     """An objective that answers the worst infinity on part of the box ("death penalty"): these are real evaluations -
     counted, charged to budgets, stored with their true fitness - although they look like a budget wrapper's refusals."""
@@ -691,7 +717,7 @@ def long_specs(tier: str = "quick") -> list[dict]:
 
 def gen_specs(seed: int, n_random: int, tier: str = "quick") -> list[dict]:
     r = random.Random(seed)
-    specs = repo_test_specs() + sweep_specs(tier) + lifecycle_specs() + engine_specs() + init_specs() + manual_specs() + frontend_specs() + branch_specs() + extra_specs() + penalty_specs() + tiny_specs() + partial_specs() + fidelity_specs() + adaptive_specs() + big_specs(tier) + user_specs() + long_specs(tier)
+    specs = repo_test_specs() + sweep_specs(tier) + lifecycle_specs() + engine_specs() + init_specs() + manual_specs() + frontend_specs() + branch_specs() + extra_specs() + hibev_specs() + penalty_specs() + tiny_specs() + partial_specs() + fidelity_specs() + adaptive_specs() + big_specs(tier) + user_specs() + long_specs(tier)
     for i in range(n_random):
         specs.append(random_spec(r, i))
     return specs
